@@ -1749,8 +1749,25 @@ impl<'a> UserModel<'a> {
         style_path: &str,
         value: &str,
     ) -> Result<(), String> {
-        let sheet = range.sheet;
         let mut diff_list = Vec::new();
+        if let Err(e) = self.update_range_style_inner(range, style_path, value, &mut diff_list) {
+            // the value can be valid for some cells and invalid for others (a size
+            // delta, for one): nothing of a rejected call must stay behind
+            self.rollback(&diff_list);
+            return Err(e);
+        }
+        self.push_diff_list(diff_list);
+        Ok(())
+    }
+
+    fn update_range_style_inner(
+        &mut self,
+        range: &Area,
+        style_path: &str,
+        value: &str,
+        diff_list: &mut Vec<Diff>,
+    ) -> Result<(), String> {
+        let sheet = range.sheet;
         if range.row == 1 && range.height == LAST_ROW {
             // Full columns
             let styled_rows = &self.model.workbook.worksheet(sheet)?.rows.clone();
@@ -1789,7 +1806,7 @@ impl<'a> UserModel<'a> {
                         column,
                         style_path,
                         value,
-                        &mut diff_list,
+                        diff_list,
                     )?;
                 }
 
@@ -1807,7 +1824,7 @@ impl<'a> UserModel<'a> {
                                 column,
                                 style_path,
                                 value,
-                                &mut diff_list,
+                                diff_list,
                             )?;
                         }
                     }
@@ -1833,7 +1850,7 @@ impl<'a> UserModel<'a> {
                         column,
                         style_path,
                         value,
-                        &mut diff_list,
+                        diff_list,
                     )?;
                 }
 
@@ -1846,7 +1863,7 @@ impl<'a> UserModel<'a> {
                             column,
                             style_path,
                             value,
-                            &mut diff_list,
+                            diff_list,
                         )?;
                     }
                 }
@@ -1875,12 +1892,11 @@ impl<'a> UserModel<'a> {
                         column,
                         style_path,
                         value,
-                        &mut diff_list,
+                        diff_list,
                     )?;
                 }
             }
         }
-        self.push_diff_list(diff_list);
         Ok(())
     }
 
@@ -2383,6 +2399,12 @@ impl<'a> UserModel<'a> {
     }
 
     // **** Private methods ****** //
+
+    /// Undoes the changes recorded so far in `diff_list` when an operation fails
+    /// half way, so that a rejected call leaves the workbook as it was.
+    pub(super) fn rollback(&mut self, diff_list: &DiffList) {
+        let _ = self.apply_undo_diff_list(diff_list);
+    }
 
     pub(crate) fn push_diff_list(&mut self, diff_list: DiffList) {
         self.send_queue.push(QueueDiffs {
